@@ -189,14 +189,23 @@ PROPS = {
     },
     "C13": {
         "units": ["swgaq", "swgar", "swmcq", "swmcr", "swgi", "swhs"], "kani_complete": ["status"], "kani_bounded_quick": [], "kani_bounded_thorough": [],
+        "enumerations": [{"name": "ctap-map-%s" % a, "entry": "ctap-map", "arg": a,
+                          "bound": b + "; BOUNDED: sample messages executed on the real crates through ciborium, not a proof",
+                          "text": t} for (a, b, t) in [
+            ("gaq", "three getAssertion requests (all members, required only, allow list present and empty) + injected unknown / duplicate / null-first / missing members", "integer keys ascending, absent members omitted, own bytes read back, unknown keys ignored, duplicate / missing required member is an error"),
+            ("gar", "two getAssertion responses + the same injections", "as above, getAssertion response"),
+            ("mcq", "makeCredential requests + the same injections", "as above, makeCredential request"),
+            ("mcr", "two makeCredential responses + the same injections", "as above, makeCredential response"),
+            ("gi", "three getInfo responses + the same injections", "as above, getInfo response"),
+            ("hs", "hmac-secret inputs + the same injections", "as above, hmac-secret input"),
+            ("authdata-sizes", "makeCredential responses whose authenticator data carries credential ids of 0, 16, 1023, 3964, 3965, 4096, 20000 and 65535 bytes", "a member value of any admitted size reads back equal (the member-value round trip the Verus units assume)")]],
         "design_ref": "DESIGN.md section 0.4 (C13) and section 5 / C13",
         "not_covered": [
             "the six messages are verified on rustc's expansion of serde_workaround! (vx/expand.py, produced from the working tree on "
             "every run): Serialize side -- integer keys the CTAP specification assigns, ascending, absent optional members omitted, "
             "announced map length -- against a trusted model of serde's Serializer / SerializeMap (call order = entry order); "
             "Deserialize side -- see the unit reports for what is under contract",
-            "the encodings of the member values themselves (derived Serialize / Deserialize of the field types) and the CBOR byte level "
-            "(ciborium) are assumed; the extension input / output structs with text keys are serde derives and are not covered",
+            "the encodings of the member values themselves (derived Serialize / Deserialize of the field types) and the CBOR byte level (ciborium) are ASSUMED by the Verus units; a BOUNDED stand-in runs with every check: the ctap-map sweeps execute sample messages of all six kinds, and authenticator data of 0 .. 65535-byte credential ids, through the real crates and ciborium (bounded_checks, not counted as proved); the extension input / output structs with text keys are serde derives and are not covered",
         ],
     },
     "C15": {
